@@ -9,9 +9,12 @@
 //@@ include xcheck.rs
 //@@ include opspec.rs
 //@@ include tokpart.rs
+//@@ include diffablestr.rs
 //@@ include remap.rs
 //@@ include reconstruct.rs
 //@@ include textdiff_spec.rs
 //@@ include textiter.rs
 //@@ props ^TextDiff:: : C04 C13 C02
+//@@ props ^lemma_tokpart_|^DiffableStrRef for T::as_diffable_str$ : C04
+//@@ props ^lemma_entry_reconstruct_|^lemma_stored_ops_inb$ : C04
 fn main() {}
